@@ -912,6 +912,20 @@ where
                 let got = srecv.iter().any(|r| r.0 == s && r.1 == *st);
                 let alive = dropped.get(st).map(|t| *t > t_drain).unwrap_or(true);
                 let answered_somewhere = dropped.contains_key(st);
+                // Documented discard, not a loss: with several servers a pending response may be dropped after ONE
+                // server answered while a slower server still has that request in its buffer (one buffer of
+                // max_active requests per client and server, no overflow); a request sent while that buffer
+                // could hold max_active earlier requests of the same client is discarded for that server.
+                let (st0, st1) = sent[st];
+                let in_buffer = sent
+                    .iter()
+                    .filter(|(o, (_, o1))| **o != *st && **o >> 32 == *st >> 32 && *o1 < st1)
+                    .filter(|(o, _)| !srecv.iter().any(|r| r.0 == s && r.1 == **o && r.3 < st0))
+                    .count();
+                if !got && in_buffer >= max_active {
+                    g.probe("documented_discard_request_buffer_of_slow_server_full");
+                    continue;
+                }
                 if !got && (faf || alive) {
                     g.err("request-lost", format!("request {st:#x} was sent successfully and its pending response {} but server {s} never received it (fire-and-forget {faf}, at most {max_active} active requests per client, no request overflow)", if alive { "is still alive" } else { "was dropped after an answer" }));
                 }
